@@ -155,3 +155,51 @@ for _t, _c in (('d3', ''), ('nr', '  n = r;'), ('dr', '  d = r;'), ('nd', '  d =
 for _u in UNITS:
     if _u['name'] == 'mpz_tdiv_qr_nr':
         _u['tier'] = 'quick'
+
+# ------------------------------------------------------------------ mpz_tdiv_q (quotient only; mpn_tdiv_q ASSUMED)
+TQQ_CONTRACT = '''_Bool g_div0_expected;
+void __gmp_divide_by_zero (void) { __CPROVER_assert (g_div0_expected, "[C02] DIVIDE_BY_ZERO is raised only when the divisor is zero"); __CPROVER_assume (0); }
+void __gmpz_tdiv_q (mpz_ptr quot, mpz_srcptr num, mpz_srcptr den)
+__CPROVER_requires (V_WF (quot) && V_WF (num) && V_WF (den) && V_GHOSTS_OK)
+__CPROVER_assigns (*quot, __CPROVER_object_whole (V_PTR (quot)), g_div_calls, g_dnum, g_dden, g_dnn, g_ddn, __CPROVER_alloca_object)
+__CPROVER_frees (V_PTR (quot))
+__CPROVER_ensures (V_WF_AT (quot, gk));
+'''
+TQQ_H = '''void *__gmp_tmp_reentrant_alloc (struct tmp_reentrant_t **m, size_t n) { void *q = malloc (n); __CPROVER_assume (q != (void *) 0); return q; }
+void __gmp_tmp_reentrant_free (struct tmp_reentrant_t *m) { }
+void h_mpz_tdiv_q (void) {
+%(Q)s%(N)s%(D)s  mpz_ptr q = &Q; mpz_srcptr n = &N, d = &D;
+ALIASBLOCK
+  gk = nondet_long (); gj = nondet_long (); gh = nondet_long ();
+  __CPROVER_assume (V_GHOSTS_OK && V_WF (q) && V_WF (n) && V_WF (d));
+  long ns = V_SIZ (n), ds = V_SIZ (d), nl = V_ABS (ns), dl = V_ABS (ds);
+  __CPROVER_assume (gh == (dl > 0 ? dl - 1 : 0));
+  mp_limb_t Nk = gk < nl ? V_PTR (n)[gk] : 0, Dj = gj < dl ? V_PTR (d)[gj] : 0, Dk = gk < dl ? V_PTR (d)[gk] : 0;
+  g_div0_expected = (dl == 0); g_div_calls = 0;
+  __gmpz_tdiv_q (q, n, d);
+  __CPROVER_assert (dl != 0, "[C02] returned normally, so the divisor was not zero");
+  long qs = V_SIZ (q);
+  if (nl < dl)
+    __CPROVER_assert (g_div_calls == 0 && qs == 0, "[C02] |n| < |d| by size: quotient 0 without dividing");
+  else
+    {
+      __CPROVER_assert (g_div_calls == 1 && g_dnn == nl && g_ddn == dl && g_dnum == Nk && g_dden == Dj, "[C02][C05] one division of the original limbs of n by those of d");
+      __CPROVER_assert (V_ABS (qs) == nl - dl + 1 || V_ABS (qs) == nl - dl, "[C02] quotient has nl-dl+1 or nl-dl limbs");
+      __CPROVER_assert (qs == 0 || (qs < 0) == ((ns < 0) != (ds < 0)), "[C02] quotient sign = xor of the operand signs (truncation toward zero)");
+    }
+  if (n != q) __CPROVER_assert ((long) V_SIZ (n) == ns && (gk < nl ==> V_PTR (n)[gk] == Nk), "[C05] dividend (not the output) unchanged");
+  if (d != q) __CPROVER_assert ((long) V_SIZ (d) == ds && (gk < dl ==> V_PTR (d)[gk] == Dk), "[C05] divisor (not the output) unchanged");
+}'''
+_tqq = dict(name='mpz_tdiv_q', props=['C02', 'C04', 'C05', 'C15'], source='mpz/tdiv_q.c', contracts=['mpn.h', 'mpz.h', 'div_assumed.h'], contract_text=TQQ_CONTRACT,
+           enforce=['__gmpz_tdiv_q'], replace=['__gmpz_realloc', '__gmpn_tdiv_q'],
+           functions={'__gmpz_tdiv_q': dict(loops={0: copy_loop(['gk', 'gj']), 1: copy_loop(['gk', 'gj'])})},
+           assumptions=['mpn_tdiv_q: ASSUMED shape contract (contracts/div_assumed.h): preconditions nn >= dn >= 1, normal divisor top limb, quotient area separate from both operands; the QUOTIENT VALUE is not specified'],
+           harness=TQQ_H % dict(Q=mpz_obj('Q'), N=mpz_obj('N'), D=mpz_obj('D')), timeout=1500, tier='thorough', selftest=[])
+for _t, _c in (('d3', ''), ('nq', '  n = q;'), ('dq', '  d = q;'), ('nd', '  d = n;')):
+    _v = dict(_tqq); _v['name'] = 'mpz_tdiv_q_' + _t
+    _v['harness'] = _tqq['harness'].replace('ALIASBLOCK', _c).replace('h_mpz_tdiv_q (void)', 'h_mpz_tdiv_q_%s (void)' % _t)
+    if _t == 'dq':
+        _v['selftest'] = [('__gmpz_tdiv_q', r'if \(dp == qp\)', 'if (0)')]
+    if _t == 'nq':
+        _v['tier'] = 'quick'; _v['selftest'] = [('__gmpz_tdiv_q', r'if \(np == qp\)', 'if (0)'), ('__gmpz_tdiv_q', r'\(ns \^ ds\) >= 0 \? ql : -ql', '(ns ^ ds) > 0 ? ql : -ql')]
+    UNITS.append(_v)
